@@ -232,6 +232,8 @@ bool prop(Tape &t, Report &R) {
   if (!t.w.empty() && t.w[0] == kExplicit) return replayExplicit(t, R);
   HistoryScope hist(t, R);
   GenOpts o;
+  o.polarisedPct = 50;
+  o.mismatchPct = 30;  // NW/SE single-row cells next to SAME/ANY ones: rows they may not enter
   if (R.thorough()) o.maxCells = 50, o.maxLevels = 12;
   CircuitSpec s = genCircuit(t, o);
   ParamOpts po;
